@@ -165,6 +165,26 @@ func init() {
 		err = e.LoadPolicy()
 		return false, fmt.Sprintf("LoadPolicy returned %v", err)
 	}
+	// D44 (fixed): *EnforceContext satisfied CacheableParam through EnforceContext's value receiver and yields the key of the
+	// value form, but enforce() only recognises the value form as a context: the cached enforcers serve the decision
+	// cached for Enforce(ctx, ...) to Enforce(&ctx, ...), for which the embedded enforcer reports an arity error
+	witnesses["D44-pointer-context-shares-cache-key"] = func() (bool, string) {
+		mk := func() *casbin.CachedEnforcer {
+			e, err := casbin.NewCachedEnforcer(mustModel(rbacText))
+			if err != nil {
+				panic(err)
+			}
+			_, _ = e.AddPolicy("alice", "data1", "read")
+			return e
+		}
+		e := mk()
+		ctx := casbin.NewEnforceContext("")
+		ok1, err1 := e.Enforce(ctx, "alice", "data1", "read")
+		ok2, err2 := e.Enforce(&ctx, "alice", "data1", "read")
+		okU, errU := e.Enforcer.Enforce(&ctx, "alice", "data1", "read")
+		return ok1 && err1 == nil && (ok2 != okU || (err2 == nil) != (errU == nil)),
+			fmt.Sprintf("Enforce(ctx, alice, data1, read) = %v, %v; then Enforce(&ctx, ...) on the cached enforcer = %v, %v while the embedded enforcer answers %v, %v", ok1, err1, ok2, err2, okU, errU)
+	}
 	// D41 (fixed): with JSON requests enabled enforce() wrote the parsed maps into the caller's request slice
 	// (a data race between concurrent BatchEnforce callers sharing a batch: the stress stage's JSON world)
 	witnesses["D41-json-request-written-into-callers-slice"] = func() (bool, string) {
